@@ -40,7 +40,10 @@ CHECKS.update({
              "operations regenerated from constraints.py on every run, constraints given at several levels are merged into their "
              "conjunction (C01_constraint_merge_table_conjoins, C01_merged_levels_accept_the_conjunction). Tie: both model and spec "
              "are evaluated inside Coq on the cases the implementation ran (values with runtime classes, full error lists); "
-             "stacked constraints and flattened fields under aliasers are probed on the implementation.",
+             "stacked constraints and flattened fields under aliasers are probed on the implementation. Aggregate fields (flattened, "
+             "pattern / additional properties): Small/Aggregate.v models the key dispatch, C01_aggregate_fields_receive_the_documented_keys "
+             "proves it equal to the documented partition for every class and key set, and every generated class / datum is compared "
+             "with the model (where each key went).",
         note=DESER_NOTE, technique="Coq proof (compiler correctness of the method tree vs declarative data model) + differential correspondence",
         design_ref="DESIGN.md §4 C01"),
     "C02": dict(
